@@ -189,6 +189,26 @@ impl Ctx {
                     _ => (None, None, false),
                 };
                 self.emit(rk, typ.into(), hash, &area, &salt, format!("keyid:{}:{}:17:{}", kv(pubkey.version()), hx(&body), hx(&uab)), ds, dv, ok, "certification-attr");
+                // attributes as RECEIVED: the subpacket length spelled in every form the format allows (GnuPG writes the five-octet
+                // form for photo ids above 8383 octets); what is digested is the packet body that was received
+                for (form, il) in [(1u8, 40usize), (2, 40), (5, 40), (2, 300), (5, 300), (5, 9000)] {
+                    let img = self.rng.bytes(il);
+                    let mut sp = vec![1u8, 0x10, 0x00, 0x01, 0x01]; sp.extend([0u8; 12]); sp.extend_from_slice(&img);
+                    let n = sp.len();
+                    let mut wire: Vec<u8> = match form { 1 => vec![n as u8], 2 => vec![(((n - 192) >> 8) + 192) as u8, ((n - 192) & 0xff) as u8], _ => { let mut v = vec![0xFF]; v.extend((n as u32).to_be_bytes()); v } };
+                    if form == 2 && n < 192 { continue; }
+                    wire.extend_from_slice(&sp);
+                    let mut pkt = vec![0xC0 | 17, 0xFF]; pkt.extend((wire.len() as u32).to_be_bytes()); pkt.extend_from_slice(&wire);
+                    let Some(Ok(Packet::UserAttribute(ua))) = guarded(|| PacketParser::new(&pkt[..]).next()).ok().flatten() else { continue; };
+                    let Some((cfg, area, salt)) = self.config(rk, typ, hash, variant + 2 + form as u64) else { continue; };
+                    rk.clear();
+                    let r = guarded(|| cfg.sign_certification(rk, pubkey, &Password::empty(), Tag::UserAttribute, &ua));
+                    let (ds, dv, ok) = match r {
+                        Ok(Ok(sig)) => { let ds = rk.last(); rk.clear(); let ok = sig.verify_certification(rk, Tag::UserAttribute, &ua).is_ok(); (ds, rk.last(), ok) }
+                        _ => (None, None, false),
+                    };
+                    self.emit(rk, typ.into(), hash, &area, &salt, format!("keyid:{}:{}:17:{}", kv(pubkey.version()), hx(&body), hx(&wire)), ds, dv, ok, &format!("certification-attr-received-len{form}"));
+                }
             }
         }
     }
